@@ -649,7 +649,7 @@ def table_cells(sx, name, rows_src, cols_src):
     for Lo in sx.loops.values():
         if Lo.kind != "for" or Lo.source != rows_src:
             continue
-        if Lo.has_break or Lo.has_return or Lo.cont != FALSE:
+        if Lo.has_break or Lo.has_return:
             return "bad", "the row loop exits early"
         if Lo.init.get(name) != ("list", ()):
             continue
@@ -664,12 +664,33 @@ def table_cells(sx, name, rows_src, cols_src):
                     if e[1] == "call" and e[2][0] == "mcall" and e[2][2] == "append" and e[2][1][0] == "idx" and e[2][1][2] == ("elem", Lo.id) \
                             and any(t == acc for t in C02._sub(e[2][1][1])):
                         cells.append((Li, e[0], e[2][3][0]))
+            if not cells:
+                # the row is appended first and filled through its own name afterwards: `row = []; t.append(row); row.append(x)`
+                import ast as _ast
+                rows = [st.value.args[0].id for st in Lo.node.body if isinstance(st, _ast.Expr) and isinstance(st.value, _ast.Call)
+                        and isinstance(st.value.func, _ast.Attribute) and st.value.func.attr == "append" and isinstance(st.value.func.value, _ast.Name)
+                        and st.value.func.value.id == name and len(st.value.args) == 1 and isinstance(st.value.args[0], _ast.Name)]
+                if len(rows) == 1:
+                    r = rows[0]
+                    fresh = [st for st in Lo.node.body if isinstance(st, _ast.Assign) and len(st.targets) == 1 and isinstance(st.targets[0], _ast.Name)
+                             and st.targets[0].id == r and isinstance(st.value, _ast.List) and not st.value.elts]
+                    stores_r = [n for n in _ast.walk(Lo.node) if isinstance(n, _ast.Name) and n.id == r and isinstance(n.ctx, _ast.Store)]
+                    fills = [Li for Li in inner if classify(Li).get(r) is not None]
+                    if len(fresh) == 1 and len(stores_r) == 1 and len(fills) == 1:
+                        Li = fills[0]
+                        fo = classify(Li).get(r)
+                        if Li.source != cols_src:
+                            return "bad", "columns are filled by a loop over `%s`" % show(Li.source)
+                        if fo.kind == "COLLECT" and Li.filter == TRUE and not Li.has_break and Li.cont == FALSE and getattr(fo, "own_filter", None) in (None, TRUE):
+                            return "ok", fo.term
+                        return None, "a row is filled through `%s` in a way that is not `width` unconditional appends" % r
+                return None, "no append to %s[i] per column recognised" % name
             if len(cells) != 1:
                 return "bad", "%d appends to %s[i] per column" % (len(cells), name)
             Li, cond, val = cells[0]
             if Li.source != cols_src:
                 return "bad", "columns are filled by a loop over `%s`" % show(Li.source)
-            if cond != TRUE or Li.has_break or Li.cont != FALSE:
+            if cond != TRUE or Li.has_break:
                 return "bad", "the per-column append is conditional (`%s`)" % show(cond)
             return "ok", val
         # idiom B: row = []; row.append(x) per column; t.append(row)
